@@ -104,11 +104,11 @@ def confirm_resource(data, ctx):
         fh.write(data)
     code = (
         "import sys,resource,time; sys.path.insert(0, %r); from vf import boot; boot.import_sut(False); from vf.checks import c17; "
-        "d=open(sys.argv[1],'rb').read(); r=c17.run_one(d); print(r[0])" % boot.VERIF_DIR
+        "c17.ALARM_S = 300; d=open(sys.argv[1],'rb').read(); r=c17.run_one(d); print(r[0])" % boot.VERIF_DIR
     )
     env = dict(os.environ, VERIF_REPO=boot.REPO)
     try:
-        r = subprocess.run([sys.executable, "-c", code, p], capture_output=True, text=True, timeout=90, env=env)
+        r = subprocess.run([sys.executable, "-c", code, p], capture_output=True, text=True, timeout=420, env=env)
         return r.stdout.strip().splitlines()[-1] in ("slow", "memory") if r.stdout.strip() else True
     except subprocess.TimeoutExpired:
         return True
